@@ -109,7 +109,18 @@ MC_PRIMS = {
     'start_linear': (lambda m: m.start_linear_motion(0.1, 0.1, 0.1, 10), 'start', (0.1, 0.1, 0.1, 10)),
     'stop': (lambda m: m.stop(), 'start', (0, 0, 0, 0)),
     'wait0.3': (None, 'wait', 0.3),
+    'forward0.02': (lambda m: m.forward(0.02), 'lin', (0.02, 0, 0)),
+    'up0.03': (lambda m: m.up(0.03), 'lin', (0, 0, 0.03)),
+    'right0.1v1.0': (lambda m: m.right(0.1, 1.0), 'lin', (0, -0.1, 0)),
+    # composite: a redundant command part-way into an update period, then waiting (the stream must go on)
+    'hover_again': (lambda m: (_vsleep(0.15), m.stop(), _vsleep(0.35)), 'composite', None),
+    'start_forward_twice': (lambda m: (m.start_forward(0.3), _vsleep(0.15), m.start_forward(0.3), _vsleep(0.35)), 'composite', None),
 }
+
+
+def _vsleep(secs):
+    vsched.S.sleep(secs, 'user.wait')
+
 
 HL_PRIMS = {
     'forward0.3': (lambda p: p.forward(0.3), (0.3, 0, 0), None),
@@ -317,7 +328,7 @@ def _judge_mc(p, cfg, devs, ex, rec, info):
         i, name = m[1], m[2]
         kind, exp = MC_PRIMS[name][1], MC_PRIMS[name][2]
         endm = next((e for e in marks if e[0] == 'end' and e[1] == i), None)
-        if endm is None or kind in ('start', 'wait'):
+        if endm is None or kind in ('start', 'wait', 'composite'):
             if endm is not None and kind == 'start':
                 seg = [c for c in allc[m[3]:endm[3]] if c[1] == 'setvel']
                 if len(seg) != 1 or any(abs(g - e) > 1e-9 for g, e in zip(seg[0][2], exp)):
@@ -442,15 +453,19 @@ def run(ck):
     ck.rule = ('%d programs: every sequence of up to %d MotionCommander primitives (alphabet of %d) and up to %d '
                'PositionHlCommander primitives (alphabet of %d), context-manager form (explicit take_off/land form for length '
                '<= 1), with an exception raised at every position of the body (length 3: after the last primitive); programs of '
-               'length <= 2 explored with every schedule of at most %d deviations, length 3 with 1 (setpoint thread vs '
-               'commanding thread, ties in virtual time)' % (len(cs), 2 if ck.quick else 3, len(MC_PRIMS), 2 if ck.quick else 3,
-                                                              len(HL_PRIMS), 2 if ck.quick else 3))
+               'length <= 1 explored with every schedule of at most %d deviations, length 2 with %d, length 3 with 1 (setpoint '
+               'thread vs commanding thread, ties in virtual time)' % (len(cs), 2 if ck.quick else 3, len(MC_PRIMS),
+                                                                       2 if ck.quick else 3, len(HL_PRIMS), 2 if ck.quick else 3,
+                                                                       1 if ck.quick else 2))
     ck.assume('recording stub in place of Crazyflie (is_connected, param.set_value, commander, high_level_commander); '
               'directions as documented: +x forward, +y left, +z up, positive yaw rate = left')
     ck.assume('the height used for landing (last streamed setpoint, up to one period stale) is not judged')
-    short = [c for c in cs if len(c['prog']) <= 2]
-    r = explore(ck, exec_c17, short, 2 if ck.quick else 3, max_execs=3000000, chunksize=16)
-    ck.note('exploration_len_le_2', r)
+    one = [c for c in cs if len(c['prog']) <= 1]
+    two = [c for c in cs if len(c['prog']) == 2]
+    r = explore(ck, exec_c17, one, 2 if ck.quick else 3, max_execs=3000000, chunksize=16)
+    ck.note('exploration_len_le_1', r)
+    r2 = explore(ck, exec_c17, two, 1 if ck.quick else 2, max_execs=3000000, chunksize=16)
+    ck.note('exploration_len_2', r2)
     if not ck.quick:
         r3 = explore(ck, exec_c17, [c for c in cs if len(c['prog']) == 3], 1, max_execs=3000000, chunksize=16)
         ck.note('exploration_len_3', r3)
